@@ -536,7 +536,7 @@ class Engine(object):
 
     # ---- per path state
     def reset(self, prefix):
-        self.prefix = list(prefix)
+        self.prefix = [tuple(d) for d in prefix]
         self.pos = 0
         self.pc = []
         self.realized_vals = []
